@@ -3,6 +3,9 @@
 package app
 
 import (
+	"bytes"
+	"context"
+
 	zz "github.com/cloudwego/hertz/internal/zzverif"
 )
 
@@ -95,4 +98,118 @@ func ZZ_C08_H2() {
 		zz.Cover("accepted", true)
 		zz.Assert("range-within-content", 0 <= start && start <= end && end < cl)
 	}
+}
+
+func zzItoaApp(n int) string {
+	if n == 0 {
+		return "0"
+	}
+	var b []byte
+	for n > 0 {
+		b = append([]byte{byte('0' + n%10)}, b...)
+		n /= 10
+	}
+	return string(b)
+}
+
+// ZZ_C08_H3: the request handler itself, on a file that is already in the handler's cache as
+// an in-memory entry (the generated-index representation), so that no file system call is
+// involved: GET and HEAD, with and without a Range header (range text symbolic), file contents
+// symbolic. The answer is 200 with the whole file, 206 with exactly the requested slice and a
+// consistent Content-Range / Content-Length, or 416; HEAD carries the same headers and no body;
+// two requests in a row hit the cache and the pooled reader.
+func ZZ_C08_H3() {
+	big := zz.Choose("big", 2) == 1
+	var content []byte
+	if big {
+		// larger than MaxSmallFileSize: still an in-memory entry, must not be treated as a big file
+		content = make([]byte, 8200)
+		for i := range content {
+			content[i] = byte('a' + i%26)
+		}
+		sym := zz.Bytes("filebytes", 2)
+		content[0], content[8199] = sym[0], sym[1]
+	} else {
+		content = zz.Bytes("file", zz.Range("filelen", 0, zz.Param("F", 4)))
+	}
+	h := &fsHandler{
+		cache:           map[string]*fsFile{},
+		compressedCache: map[string]*fsFile{},
+		acceptByteRange: zz.Choose("acceptByteRange", 2) == 1,
+	}
+	ff := &fsFile{h: h, dirIndex: content, contentType: "text/plain", contentLength: len(content), lastModifiedStr: []byte("Mon, 02 Jan 2006 15:04:05 GMT")}
+	h.cache["/f"] = ff
+	rounds := zz.Range("requests", 1, zz.Param("Q", 1))
+	for round := 0; round < rounds; round++ {
+		head := zz.Choose("head", 2) == 1
+		useRange := zz.Choose("range", 2) == 1
+		var rng []byte
+		if useRange && big {
+			rng = []byte([]string{"bytes=8190-", "bytes=-3", "bytes=0-0", "bytes=8200-", "bytes=5-8300"}[zz.Choose("bigrange", 5)])
+		} else if useRange {
+			rng = append([]byte("bytes="), zz.Bytes("rangetext", zz.Range("rangelen", 0, zz.Param("R", 3)))...)
+		}
+		ctx := NewContext(0)
+		ctx.Request.SetRequestURI("/f")
+		if head {
+			ctx.Request.Header.SetMethod("HEAD")
+		}
+		if useRange {
+			ctx.Request.Header.SetBytesKV([]byte("Range"), rng)
+		}
+		h.handleRequest(context.Background(), ctx)
+		status := ctx.Response.StatusCode()
+		var body []byte
+		if ctx.Response.IsBodyStream() {
+			buf := make([]byte, 3)
+			if big {
+				buf = make([]byte, 4096)
+			}
+			r := ctx.Response.BodyStream()
+			for i := 0; i < 64; i++ {
+				n, err := r.Read(buf)
+				body = append(body, buf[:n]...)
+				if err != nil {
+					break
+				}
+			}
+			ctx.Response.CloseBodyStream() //nolint:errcheck
+		} else {
+			body = ctx.Response.Body()
+		}
+		cl := ctx.Response.Header.ContentLength()
+		cr := ctx.Response.Header.Peek("Content-Range")
+		zz.Cover("reached-assert", true)
+		rs, re, ok := 0, len(content)-1, true
+		ranged := useRange && h.acceptByteRange
+		if ranged {
+			rs, re, ok = zzRefRange(rng[6:], len(content))
+		}
+		if !ok {
+			zz.Cover("unsatisfiable", true)
+			zz.Assert("unsatisfiable-range-gets-416", status == 416)
+			continue
+		}
+		wantStatus := 200
+		if ranged {
+			wantStatus = 206
+			zz.Cover("partial", true)
+		}
+		zz.Assert("status", status == wantStatus)
+		want := content[rs : re+1]
+		zz.Assert("content-length-matches-selected-bytes", cl == len(want))
+		if head {
+			zz.Cover("head", true)
+			zz.Assert("head-has-no-body", len(body) == 0 && ctx.Response.SkipBody)
+		} else {
+			zz.Assert("body-is-exactly-the-requested-slice", bytes.Equal(body, want))
+		}
+		if ranged {
+			wantCR := "bytes " + zzItoaApp(rs) + "-" + zzItoaApp(re) + "/" + zzItoaApp(len(content))
+			zz.Assert("content-range-consistent", string(cr) == wantCR)
+		} else {
+			zz.Assert("no-content-range-without-range", len(cr) == 0)
+		}
+	}
+	zz.Assert("readers-released", ff.readersCount == 0)
 }
